@@ -269,6 +269,15 @@ fn check_stream(case: &mut Case, st: &mut TestStream, generated: bool, every_byt
     };
     cuts.sort();
     cuts.dedup();
+    // Cost bound: every cut costs about two decodes of the stream (loading render + final render).
+    // Keep the bytes decoded per case below ~2 x 16 MB so that a case stays within a few seconds
+    // (large streams get fewer cuts, never fewer than 12).
+    let cut_budget = (16_000_000 / n.max(1)).max(12);
+    if cuts.len() > cut_budget {
+        rng.shuffle(&mut cuts);
+        cuts.truncate(cut_budget);
+        cuts.sort();
+    }
     case.obs(if n <= every_byte_limit && !st.real { "streams_cut_at_every_byte" } else { "streams_cut_at_boundaries_and_random" }, 1);
     let mut tally = Tally::default();
     // ---- (a)
@@ -293,7 +302,7 @@ fn check_stream(case: &mut Case, st: &mut TestStream, generated: bool, every_byt
     }
     // ---- (b)
     for _ in 0..n_long {
-        let m = rng.urange(2, 40.min(cuts.len().max(2)));
+        let m = rng.urange(2, 40.min(cuts.len().max(2)).min((cut_budget / 8).max(2)));
         let mut stops: Vec<usize> = (0..m).map(|_| *rng.pick(&cuts)).collect();
         stops.sort();
         stops.dedup();
